@@ -907,7 +907,7 @@ From V Require Proofs.BlocksTotal5Only.
    after the string "..peek_char_n:assert!(" + "*c > 0)" of the list below (it takes the two characters for a comment
    opener), and the build would lose the dependency of this file on the files of the sixth round *)
 From V Require Proofs.BlocksTotal6Row Proofs.BlocksTotal6Pos Proofs.BlocksTotal6Val Proofs.BlocksTotal6ValWalk Proofs.BlocksTotal6.
-From V Require Proofs.BlocksTotal7Add Proofs.BlocksTotal7ContWalk Proofs.BlocksTotal7Atx Proofs.BlocksTotal7Fm Proofs.BlocksTotal7Loc Proofs.BlocksTotal7Cur Proofs.BlocksTotal7.
+From V Require Proofs.BlocksTotal7Add Proofs.BlocksTotal7ContWalk Proofs.BlocksTotal7Atx Proofs.BlocksTotal7CodeFin Proofs.BlocksTotal7CodeWalk Proofs.BlocksTotal7Fm Proofs.BlocksTotal7Loc Proofs.BlocksTotal7Cur Proofs.BlocksTotal7.
 
 Theorem Blocks_total_remaining_sites_list :
   BlocksTotal5Only.rem_sites =
@@ -1178,6 +1178,16 @@ Print Assumptions Blocks_total_partial_stored_values.
                            ATX heading: the frame invariant PI c (no node with identifier c is an ATX heading) holds for
                            the last matched container (check_open_blocks_lmc: the root, a node that matched, or a node
                            with a child — SV, ball), for fresh identifiers (PI_fresh) and is kept by every function
+     BlocksTotal7Code*     mod.rs:finalize_borrowed:assert!(pos < content.len()) and content.as_bytes()[pos] (both idx):
+                           an OPEN fenced code block has a content with a line end, and a CR found there is not the last
+                           byte (lend_ok: stable when the content grows at the end; lines are l ++ LF without CR inside),
+                           EXCEPT the block handle_code_fence has just created, until add_text_to_container adds the rest
+                           of the opening line in the same process_line call (the cursor is inside the line:
+                           handle_code_fence_cursor, local).  Invariant CX e: every node but the exception e satisfies it
+                           (None between lines); while the exception is active only finalize_up_to finalizes, on
+                           self.current and its parents: a parent is not a CodeBlock (SV + TI), and self.current / the
+                           last matched container are older identifiers than the new block (FR: below ps_next at the entry
+                           of open_new_blocks), which also rules out the lazy branch and the `self.current changed` branch
    Under utf8_valid x = true (the lines handed to process_line and the text after a front matter block are then valid
    UTF-8: Blocks_total_lines_partial, BlocksTotal7Loc.prologue_rest_valid):
      BlocksTotal7Fm        the three char-boundary slices of strings.rs front matter (split_off_front_matter:slice_from,
@@ -1195,8 +1205,9 @@ Print Assumptions Blocks_total_partial_stored_values.
                            BlocksTotal7CurScan.re_last_ascii / re_ascii, checked by vm_compute per scanner), to the LF or
                            beyond the line; a BOM is one character; for an ATX heading add_line gets the CHOPPED line, a
                            prefix of the line cut in front of an ASCII byte
-   RESULT: all twelve UTF-8 sites, the add_child unwrap and chop_trailing_hashtags are excluded; on valid UTF-8 input
-   parse_blocks is Ok or a Panic at one of the 8 sites of rem_sites7; for every input, Ok or one of the 14 sites of
+   RESULT: all twelve UTF-8 sites, the add_child unwrap, chop_trailing_hashtags and the two fenced code sites
+   are excluded; on valid UTF-8 input
+   parse_blocks is Ok or a Panic at one of the 6 sites of rem_sites7; for every input, Ok or one of the 12 sites of
    rem_sites7_all (= rem_sites7 + the
    six sites that need valid input: add_line, handle_alert, handle_footnote, the three front matter slices). *)
 
@@ -1205,8 +1216,6 @@ Theorem Blocks_total_remaining_sites_list7 :
   [ "mod.rs:finalize_borrowed:assert!(ast.open)";
     "mod.rs:add_line:assert!(ast.open)";
     "mod.rs:add_text_to_container:self.finalize(self.current).unwrap()";
-    "mod.rs:finalize_borrowed:assert!(pos < content.len())";
-    "mod.rs:finalize_borrowed:content.as_bytes()[pos]";
     "table.rs:try_opening_header:content.len() - 2";
     "table.rs:try_opening_header:content.len() - 2 - header_row.paragraph_offset";
     "strings.rs:remove_trailing_blank_lines:line.len() - 1" ] /\
@@ -1220,8 +1229,6 @@ Theorem Blocks_total_remaining_sites_list7 :
     "strings.rs:split_off_front_matter:slice_from";
     "strings.rs:split_off_front_matter:slice_to";
     "strings.rs:line_at:slice";
-    "mod.rs:finalize_borrowed:assert!(pos < content.len())";
-    "mod.rs:finalize_borrowed:content.as_bytes()[pos]";
     "table.rs:try_opening_header:content.len() - 2";
     "table.rs:try_opening_header:content.len() - 2 - header_row.paragraph_offset";
     "strings.rs:remove_trailing_blank_lines:line.len() - 1" ].
@@ -1246,6 +1253,17 @@ Print Assumptions Blocks_total_partial_ok_or_remaining7_every_input.
    REMAINING for Blocks_total_full_statement = exactly rem_sites7:
      open spine (3)   finalize_borrowed:assert!(ast.open), add_line:assert!(ast.open),
                       add_text_to_container:self.finalize(self.current).unwrap(): spine_ok2 with P1 / P2 (fourth round).
+                      PROVED pieces (Proofs/BlocksTotal7SpineLeaf.v, BlocksTotal7Spine.v, not pinned; under W = TI, SV, R0):
+                      the invariant as Props over parent_of (anc, OC = open chain up to the root, OS, SEG, Between, P1, P2,
+                      ATCH); finalize / add_line / add_child_loop / add_child_gen on an open chain do not panic at the
+                      three sites and keep the chain (add_child_loop_spine, add_child_gen_OC); finalize_up_to_spine (from
+                      `open strictly below the target`: covers S3); check_open_blocks_spine (from `root open`: the
+                      answered container has an open chain); add_text_to_container_spine (from ATCH); finalize_document,
+                      the prologue; eleven handlers for every option set; open_new_blocks with tables and description
+                      lists OFF.  Missing: the right-edge / walk clauses (last matched container is an ancestor of
+                      self.current), a clause about open nodes off the right edge that a detached empty paragraph
+                      exposes (DescriptionTerm, table preface), the other clauses of ATCH through the handlers, chain
+                      lemmas for parse_desc_list_details (bdetach, reopen_ast_nodes) and the table openers (edit_kids).
      table header (2) try_opening_header:content.len() - 2 [- paragraph_offset].  PROVED pieces (Proofs/BlocksTotal7Hdr.v,
                       BlocksTotal7HdrLocal.v, not pinned): row_po_room (content [] or ending with LF and row answers
                       Some (po, cells) => po + 2 <= |content|), try_inserting_table_header_paragraph keeps the content of
@@ -1256,14 +1274,11 @@ Print Assumptions Blocks_total_partial_ok_or_remaining7_every_input.
                       paragraph is immediately followed by a Table), `the paragraph handed to try_opening_block is a last
                       child` (it is the last matched container, reached through last_child_is_open), and the cursor fact
                       offset < |line| at add_line on a Paragraph.
-     code blocks (3)  finalize_borrowed:assert!(pos < content.len()), content.as_bytes()[pos],
-                      remove_trailing_blank_lines:line.len() - 1.  PROVED pieces (Proofs/BlocksTotal7Code*.v, not pinned):
-                      ngk_finalize (finalize is safe at the three sites when an open code block has lend_ok / non-empty
-                      content), the Ok-path invariant CX e (all nodes but the exception e satisfy it) through every
-                      function, add_line_establish (the first add_line removes the exception), open_new_blocks_x
-                      (exception = the code block just opened; the loop stops), ngk_finalize_up_to_ex, fm_nonempty (the
-                      front matter call is safe).  Missing: add_text_to_container with the exception active (needs
-                      new <> self.current and <> last matched container: freshness), the walk from the handlers up, and
-                      for the indented case the cursor invariant F1 at handle_code_block.
+     indented code (1) strings.rs:remove_trailing_blank_lines:line.len() - 1 (panics on the empty string only).  The
+                      front matter call is safe (BlocksTotal7CodeFin.fm_nonempty).  The content of an indented code block
+                      at finalize is not empty: same exception scheme as the fenced blocks (restore `content <> []` in
+                      code_ok), plus the cursor invariant F1 at handle_code_block (after advance_offset(CODE_INDENT,
+                      columns) the offset is before first_nonspace, so add_line appends a non-empty rest): sg_and with
+                      handle_code_block_cur of Proofs/BlocksTotal4Open.v.
    The walks of this round are independent files: a new family is one more `but <sites>` walk plus one line in the table
    of Proofs/BlocksTotal7.v. *)
